@@ -15,16 +15,19 @@ import (
 func init() { monitors["C16"] = monC16 }
 
 type loggerCase struct {
-	ID        int    `json:"id"`
-	Size      int    `json:"size"`
-	Content   string `json:"content"` // random | zeros | text
-	Seed      uint64 `json:"seed"`
-	Stdin     string `json:"stdin_mode"` // file | pipe | pipe-close-at-once
-	Chunk     int    `json:"chunk"`
-	GapUs     int    `json:"gap_us"`
-	Hook      string `json:"hook_profile"`
-	Procs     int    `json:"gomaxprocs"`
-	LogEvents bool   `json:"log_events"`
+	ID         int    `json:"id"`
+	Size       int    `json:"size"`
+	Content    string `json:"content"` // random | zeros | text
+	Seed       uint64 `json:"seed"`
+	Stdin      string `json:"stdin_mode"` // file | pipe | pipe-close-at-once
+	Chunk      int    `json:"chunk"`
+	GapUs      int    `json:"gap_us"`
+	Hook       string `json:"hook_profile"`
+	Procs      int    `json:"gomaxprocs"`
+	LogEvents  bool   `json:"log_events"`
+	NoEventDir bool   `json:"no_event_log_directory,omitempty"`
+	NoOldDir   bool   `json:"no_directory_for_old_logs,omitempty"`
+	TZ         string `json:"tz,omitempty"` // time zone of the process
 }
 
 func loggerInput(k loggerCase) []byte {
@@ -48,8 +51,18 @@ func execC16(c *child.Ctx, k loggerCase, cj []byte) {
 	os.MkdirAll(dir, 0755)
 	defer os.RemoveAll(dir)
 	logDir := filepath.Join(dir, "record")
-	os.WriteFile(filepath.Join(dir, "cfg.json"), []byte(fmt.Sprintf(`{"log_events": %v, "message_log_directory": %q, "directory_for_old_message_logs": %q, "event_log_directory": %q}`,
-		k.LogEvents, logDir, filepath.Join(dir, "old"), filepath.Join(dir, "events"))), 0644)
+	cfgText := fmt.Sprintf(`{"log_events": %v, "message_log_directory": %q`, k.LogEvents, logDir)
+	if !k.NoOldDir {
+		cfgText += fmt.Sprintf(`, "directory_for_old_message_logs": %q`, filepath.Join(dir, "old"))
+	}
+	if !k.NoEventDir {
+		cfgText += fmt.Sprintf(`, "event_log_directory": %q`, filepath.Join(dir, "events"))
+	}
+	os.WriteFile(filepath.Join(dir, "cfg.json"), []byte(cfgText+"}"), 0644)
+	var extraEnv []string
+	if k.TZ != "" {
+		extraEnv = append(extraEnv, "TZ="+k.TZ)
+	}
 	ak := appCase{ID: k.ID, StdinMode: "pipe", StdoutMode: "fast", Chunk: k.Chunk, ReaderUs: k.GapUs, Procs: k.Procs, HookProfile: k.Hook}
 	if k.Stdin == "file" {
 		ak.StdinMode = "file"
@@ -58,7 +71,7 @@ func execC16(c *child.Ctx, k loggerCase, cj []byte) {
 		ak.Chunk = len(in) + 1
 		ak.ReaderUs = 0
 	}
-	res := runAppProcess(c, filepath.Join(c.BinDir, "rtcmlogger"), []string{"-c", filepath.Join(dir, "cfg.json")}, in, ak, dir, nil)
+	res := runAppProcess(c, filepath.Join(c.BinDir, "rtcmlogger"), []string{"-c", filepath.Join(dir, "cfg.json")}, in, ak, dir, extraEnv)
 	switch {
 	case res.TimedOut:
 		c.Inconclusive("rtcmlogger did not exit within 90 s")
@@ -75,7 +88,14 @@ func execC16(c *child.Ctx, k loggerCase, cj []byte) {
 		c.Violate("pass-through-differs", fmt.Sprintf("rtcmlogger wrote %d bytes to its standard output for %d bytes of input: %s", len(res.Stdout), len(in), firstDiff(res.Stdout, in)), cj)
 		return
 	}
-	rec, nfiles := concatFiles(res.Files, "rtcmlogger.", ".rtcm")
+	// the record must be in the configured directory itself
+	inLogDir := map[string][]byte{}
+	for name, b := range res.Files {
+		if filepath.Dir(name) == "record" {
+			inLogDir[name] = b
+		}
+	}
+	rec, nfiles := concatFiles(inLogDir, "rtcmlogger.", ".rtcm")
 	if !bytes.Equal(rec, in) {
 		c.Violate("record-differs", fmt.Sprintf("after the program ended the day's record file(s) (%d) hold %d bytes for %d bytes of input: %s (stdin %s, hook %q)", nfiles, len(rec), len(in), firstDiff(rec, in), k.Stdin, k.Hook), cj)
 		return
@@ -105,7 +125,9 @@ func monC16(c *child.Ctx, replay json.RawMessage) {
 	for i := 0; i < n; i++ {
 		k := loggerCase{ID: c.Batch*100000 + i, Seed: r.Uint64() >> 1, Content: []string{"random", "random", "zeros", "text"}[r.Intn(4)],
 			Stdin: []string{"file", "pipe", "pipe", "pipe-close-at-once"}[r.Intn(4)], Chunk: []int{0, 1000, 8096, 100}[r.Intn(4)], GapUs: []int{0, 300, 3000}[r.Intn(3)],
-			Hook: hooks[r.Intn(len(hooks))], Procs: []int{1, 2, 16}[r.Intn(3)], LogEvents: r.Chance(1, 3)}
+			Hook: hooks[r.Intn(len(hooks))], Procs: []int{1, 2, 16}[r.Intn(3)], LogEvents: r.Chance(1, 3), NoEventDir: r.Chance(1, 3), NoOldDir: r.Chance(1, 2),
+			// zones in which the local date is behind, equal to or ahead of the UTC date right now
+			TZ: []string{"", "", "UTC", "Etc/GMT+12", "Etc/GMT+8", "Etc/GMT+3", "Etc/GMT-5", "Etc/GMT-10", "Etc/GMT-14", "America/New_York", "Asia/Tokyo"}[r.Intn(11)]}
 		if i < len(sizes) {
 			k.Size = sizes[i]
 		} else if c.Thorough() && r.Chance(1, 40) {
